@@ -251,8 +251,15 @@ func runWriterContract(r *vh.Rng) (string, string) {
 	frames := make([][]byte, n)
 	start := make([]time.Duration, n)
 	cancel := make([]time.Duration, n)
+	sized := r.Intn(3) == 0
+	if sized {
+		cls += "/sizes"
+	}
 	for i := range frames {
 		l := 2 + r.Intn(40)
+		if sized && r.Intn(2) == 0 {
+			l = 2 + drawTotal(r, []string{"small", "edge", "edge", "edge", "mid", "huge"}[r.Intn(6)])
+		}
 		frames[i] = make([]byte, l)
 		for j := range frames[i] {
 			frames[i][j] = byte(i + 1)
@@ -330,8 +337,12 @@ func main() {
 		n := 1 + r.Intn(5)
 		lens := make([]string, n)
 		sum := 0
+		bigBatch := i%3 == 2 // a third of the batches mix buffers of the size classes of the other tiers
 		for j := range lens {
 			l := 1 + r.Intn(40)
+			if bigBatch && r.Intn(2) == 0 {
+				l = drawTotal(r, []string{"small", "edge", "edge", "mid", "huge"}[r.Intn(5)]) + 1
+			}
 			sum += l
 			lens[j] = fmt.Sprint(l)
 		}
@@ -344,8 +355,15 @@ func main() {
 				lim += l
 			}
 		}
+		if bigBatch && r.Intn(3) == 0 { // the vectored write stopped next to a 4 KiB multiple
+			lim = (1+r.Intn(sum/4096+1))*4096 - 1 + r.Intn(3)
+		}
 		op := fmt.Sprintf("attr %d %s", lim, strings.Join(lens, " "))
-		out.Case(op, exec(op), fmt.Sprintf("attr/%d", n), true)
+		cls := fmt.Sprintf("attr/%d", n)
+		if bigBatch {
+			cls += "/sizes"
+		}
+		out.Case(op, exec(op), cls, true)
 	}
 	runs := 60 * mult
 	for i := 0; i < runs; i++ {
@@ -354,13 +372,20 @@ func main() {
 			sc.coalesce = time.Duration(50+r.Intn(300)) * time.Microsecond
 		}
 		total := 0
+		sized := i%2 == 1 // every other scenario draws frame sizes from the classes (large and small writers together)
 		for j := 0; j < sc.writers; j++ {
 			sz := r.Intn(60)
+			if sized && r.Intn(2) == 0 {
+				sz = padFor(sc.proto, j+1, drawTotal(r, []string{"small", "edge", "edge", "mid", "mid", "huge"}[r.Intn(6)]))
+			}
 			sc.sizes = append(sc.sizes, sz)
 			sc.cancel = append(sc.cancel, r.Intn(8) == 0)
 			total += 30 + sz
 		}
 		sc.cutOffset = int64(r.Intn(total + 10))
+		if sized && r.Intn(3) == 0 { // next to a 4 KiB multiple of the request stream
+			sc.cutOffset = int64((1+r.Intn(total/4096+1))*4096 - 1 + r.Intn(3))
+		}
 		if r.Intn(6) == 0 {
 			sc.cutOffset = -1
 		}
@@ -374,6 +399,9 @@ func main() {
 		co := "direct"
 		if sc.coalesce > 0 {
 			co = "coalesce"
+		}
+		if sized {
+			co += "/sizes"
 		}
 		out.Case(op, "accept", "trace/"+co+"/"+cls, true)
 	}
